@@ -389,6 +389,60 @@ def g_sdrz():
     return {'Sdrz': (text, js)}
 
 
+@group('piston')
+def g_piston():
+    """Elastic-plastic piston: the closed-form constructor algebra - elastic precursor (e_y, p_y, wv_el, vel_y) as a function of the
+    density at yield rho_y (which the three elastic models supply), and the plastic-wave state (p2, rho2, e2) as a function of the
+    plastic wave speed (which fsolve supplies); the straight-line assignments of __init__ are evaluated in order, the model
+    dispatch and the root finder are outside the subset"""
+    from py2coq import Interp, Func, free_vars
+    mod = Module(os.path.join(S, 'ep_piston/ep_piston.py'))
+    cn = mod.classes['EPpiston']
+    meth = {st.name: st for st in cn.body if isinstance(st, ast.FunctionDef)}
+    text = HEADER % 'exactpack/solvers/ep_piston/ep_piston.py'
+    js = {}
+    P = ['gamma', 'c0', 's0', 'G', 'Y', 'rho0', 'up']
+    selfo = Obj('', {a: ('var', a) for a in P}, frozen=True, name='self')
+    selfo.attrs['rho_y'] = ('var', 'rho_y')
+    selfo.attrs['wv_pl'] = ('var', 'wv_pl')
+
+    def factory(name):
+        def h(interp_, n, env, base):
+            a = [interp_.ev(x, env) for x in n.args]
+            return interp_.call_func(Func(meth[name], mod), [selfo] + a, {}, n)
+        return h
+    interp = Interp(mod, {('method', 'Gruneisen'): factory('Gruneisen')})
+    env = {'self': selfo}
+    done = []
+    for st in meth['__init__'].body:
+        if not isinstance(st, ast.Assign) or len(st.targets) != 1:
+            continue
+        tg = st.targets[0]
+        src = ast.dump(st.value)
+        if 'fsolve' in src or 'rho_hypoYield' in src or 'rho_hyperIfinYield' in src or 'rho_hyperFinYield' in src:
+            continue
+        if isinstance(tg, ast.Name):
+            env[tg.id] = interp.ev(st.value, env)
+        elif isinstance(tg, ast.Attribute) and isinstance(tg.value, ast.Name) and tg.value.id == 'self' and tg.attr not in ('rho_y', 'wv_pl'):
+            selfo.attrs[tg.attr] = interp.ev(st.value, env)
+            done.append(tg.attr)
+    want = ['sdev_y', 'e_y', 'p_y', 'wv_el', 'vel_y', 'p2', 'rho2', 'e2']
+    missing = [w for w in want if w not in done]
+    if missing:
+        raise Unsupported('ep_piston.__init__: no straight-line assignment of %s' % missing)
+    if interp.raises:
+        raise Unsupported('ep_piston: unexpected raise in the constructor algebra')
+    args = P + ['rho_y', 'wv_pl']
+    for k in want:
+        e = selfo.attrs[k]
+        fv = free_vars(e)
+        a = [x for x in args if x in fv]
+        text += '\n' + emit_function('epp_' + k, a, e, comment='EPpiston.__init__: self.%s' % k)
+        text += '#[global] Hint Unfold epp_%s : epgen.\n' % k
+        js['epp_' + k] = {'args': a, 'expr': expr_to_json(e)}
+    return {'Piston': (text, js)}
+
+
 def methods_group(relpath, outname, specs):
     """specs: list of (coq prefix, class, [self attribute names], [(method, [arg names])])"""
     from gen import translate_method, nan_cond, strip_nan
